@@ -21,8 +21,10 @@ theorem normDec_isNumber (m : Int) (e : Nat) : isNumber (normDec m e) = true := 
 theorem coerceFloat_cases (v : JVal) : coerceFloat v = .null ∨ isNumber (coerceFloat v) = true := by
   cases v <;> simp only [coerceFloat, isNumber, or_true, true_or]
   · split
-    · exact Or.inr (normDec_isNumber _ _)
     · exact Or.inl rfl
+    · split
+      · exact Or.inr (normDec_isNumber _ _)
+      · exact Or.inl rfl
 
 theorem coerceInt_cases (v : JVal) : coerceInt v = .null ∨ ∃ i, coerceInt v = .int i ∧ inInt32 i = true := by
   have h := intOK_coerceInt v
